@@ -389,7 +389,70 @@ def run_fast(case):
     return result(n, ['fast'], fails)
 
 
+# ---- the same relations at the level of a model: name keys of a dictionary in any letter case, workbook paths in any spelling
+def run_model(case):
+    import os, re
+    import numpy as np
+    import formulas
+    from xl.wbspec import Scratch
+    from xl.evalcell import classify, exc_name
+    _, kind = case
+    fails, n = [], 0
+    P = "'[b.xlsx]S'!"
+    val = lambda sol, k: classify(np.asarray(sol[k].value, object).ravel()[0]) if k in sol else None
+    if kind == 'names':
+        for key in ('Rate', 'rate', 'RATE', 'vat.2024', 'Vat.2024', 'my_Name', 'näme'):
+            for use in (key, key.upper(), key.lower(), key.swapcase()):
+                n += 1
+                d = {P + 'A1': 5, "'[b.xlsx]'!%s" % key: "='[b.xlsx]S'!A1", P + 'B1': "='[b.xlsx]'!%s*2" % use, P + 'B2': "=SUM('[b.xlsx]'!%s,1)" % use.upper()}
+                try:
+                    m = formulas.ExcelModel().from_dict(d)
+                    sol = m.calculate()
+                    got = (val(sol, P + 'B1'), val(sol, P + 'B2'))
+                    names = [k for k in m.dsp.data_nodes if isinstance(k, str) and k.upper().endswith('!' + key.upper())]
+                except Exception as e:
+                    got, names = 'ESC:' + exc_name(e), []
+                if got != (('n', 10.0), ('n', 6.0)) or len(names) != 1:
+                    fails.append(Fail('defined-name', got='%s nodes=%s' % (got, names), exp='B1=10, B2=6, one node', name=key, spelling='dict-key:' + use))
+    else:
+        import openpyxl
+        cwd = os.getcwd()
+        with Scratch() as d:
+            try:
+                os.makedirs(os.path.join(d, 'sub'))
+                wc = openpyxl.Workbook()
+                wc.active.title = 'U'
+                wc.active['A1'], wc.active['A2'] = 7, '=A1*3'
+                wc.save(os.path.join(d, 'sub', 'c.xlsx'))
+                wb = openpyxl.Workbook()
+                wb.active.title = 'S'
+                wb.active['A1'] = "='sub/[c.xlsx]U'!A2+1"
+                wb.active['A2'] = "=SUM('sub/[c.xlsx]U'!A1:A2)"
+                wb.save(os.path.join(d, 'b.xlsx'))
+                os.chdir(d)
+                for pb in ('b.xlsx', './b.xlsx', os.path.join(d, 'b.xlsx')):
+                    for pc in (None, 'sub/c.xlsx', './sub/c.xlsx', 'sub/../sub/c.xlsx', 'sub//c.xlsx', os.path.join(d, 'sub', 'c.xlsx'), './sub/./c.xlsx'):
+                        for order in (0,):          # the first workbook loaded fixes the base folder: the host always goes first
+                            n += 1
+                            files = [pb] + ([pc] if pc else [])
+                            try:
+                                m = formulas.ExcelModel().loads(*(files[::-1] if order else files)).finish()
+                                sol = m.calculate()
+                                a1 = [val(sol, k) for k in sol if isinstance(k, str) and k.upper().endswith("[B.XLSX]S'!A1")]
+                                a2 = [val(sol, k) for k in sol if isinstance(k, str) and k.upper().endswith("[B.XLSX]S'!A2")]
+                                ids = [k for k in m.dsp.data_nodes if isinstance(k, str) and re.search(r"\[c\.xlsx\]U'!A1$", k, re.I)]
+                            except Exception as e:
+                                a1, a2, ids = 'ESC:' + exc_name(e), None, []
+                            if a1 != [('n', 22.0)] or a2 != [('n', 28.0)] or len(ids) != 1:
+                                fails.append(Fail('book-spelling', got='A1=%s A2=%s ids=%s' % (a1, a2, ids), exp='A1=22 A2=28, one node for U!A1', book=str(pc), dir=str(pb), spelling='loads-path', digit=False))
+            finally:
+                os.chdir(cwd)
+    return result(n, ['model:' + kind], fails[:20])
+
+
 def run_case(case):
+    if case[0] == 'model':
+        return run_model(case)
     return {'rect': run_rect, 'cols': run_cols, 'names': run_names, 'defined': run_defined, 'fast': run_fast, 'books': run_books, 'relhost': run_relhost}[case[0]](case)
 
 
@@ -417,4 +480,5 @@ def run(ctx):
     ctx.explore(run_case, (['fast', ctx.tier, c] for c in cols), chunksize=1, label='fast_paths')
     ctx.explore(run_case, (['books', sh] for sh in ['S', 'My Data', "It's", '1st']), chunksize=1, label='workbook_names')
     ctx.explore(run_case, (['relhost', sh] for sh in ['S', 'T']), chunksize=1, label='relative_text_from_many_hosts')
+    ctx.explore(run_case, (['model', k] for k in ['names', 'paths']), chunksize=1, label='names_and_paths_at_model_level')
     return {'distinct_ids': len(allids)}
